@@ -4,6 +4,7 @@ Model: JanetModel/GC/Model.lean (mirrors src/core/gc.c); tie: Gen/GC.lean (regen
 -/
 import JanetModel.GC.Collect
 import JanetModel.GC.Mutator
+import JanetModel.GC.Locked
 
 namespace JanetModel.Props.C01
 open JanetModel.GC Std
@@ -306,5 +307,165 @@ theorem gen_facts : Gen.GC.weakThreshold = Gen.GC.memTableWeakK ∧ 1 ≤ Gen.GC
     Gen.GC.liverefCases = ["JANET_ABSTRACT", "JANET_ARRAY", "JANET_BUFFER", "JANET_FIBER", "JANET_FUNCTION", "JANET_KEYWORD",
       "JANET_STRING", "JANET_STRUCT", "JANET_SYMBOL", "JANET_TABLE", "JANET_TUPLE"] :=
   ⟨by decide, by decide, by decide, by decide, by decide, by decide, rfl, rfl⟩
+
+/-! ## Session 3 — the root-set protocol, suspension, and transparency with C locals under `janet_gclock`
+
+Model: GC/Roots.lean (janet_gcroot / janet_gcunroot / janet_gcunrootall / janet_gc_idequals / janet_gclock / janet_gcunlock /
+janet_gcpressure / maybe_collect / the prologue and epilogue of janet_collect), tied by regeneration (Gen/GC.lean: growth
+factor, always-equal types, loop shape of janet_gcunrootall, interval constants, every reader/writer of gc_suspend) and by
+op-history correspondence against the real functions (harness/C01/roots.c, whole `janet_vm.roots` array compared). -/
+
+/-- **The roots array refines a multiset, under every op history.**  Reading `janet_vm.roots[0..root_count)` as a
+multiset of `janet_gc_idequals`-classes, `janet_gcroot` adds one element, `janet_gcunroot` removes one occurrence (if
+there is one), `janet_gcunrootall` — with the loop that re-examines the refilled slot — removes all, and nothing else
+(locks, pressure, allocation, collections incl. the spill/drain use of the array, scratch calls) changes it. -/
+theorem roots_refine_multiset (D : Nat) (s : Heap × VM) (ops : List ROp)
+    (hcfg : Gen.GC.unrootallRescans = true ∨ ∀ op ∈ ops, op.isUnrootall = false) :
+    ((runOps D s ops).2.roots.map RVal.norm).Perm (ops.foldl absRoots (s.2.roots.map RVal.norm)) :=
+  runOps_roots D ops s hcfg
+
+/-- **`janet_gcunroot` removes exactly one occurrence**: it returns 1 iff some root is id-equal to `x`; then the array
+afterwards is a permutation of the array before with its FIRST id-equal element erased (so the class of `x` loses one
+occurrence, every other class keeps its count, `root_count` drops by one); otherwise nothing changes. -/
+theorem gcunroot_removes_exactly_one (vm : VM) (x : RVal) :
+    ((gcunroot vm x).2 = 1 ↔ ∃ v ∈ vm.roots, idEq x v = true) ∧
+    ((gcunroot vm x).2 = 1 → (gcunroot vm x).1.roots.Perm (vm.roots.eraseP (fun v => idEq x v)) ∧
+        (gcunroot vm x).1.roots.length + 1 = vm.roots.length ∧
+        ∀ y : RVal, ((gcunroot vm x).1.roots.map RVal.norm).count y.norm =
+          (vm.roots.map RVal.norm).count y.norm - (if y.norm = x.norm then 1 else 0)) ∧
+    ((gcunroot vm x).2 ≠ 1 → (gcunroot vm x).1 = vm) := by
+  unfold gcunroot
+  cases hu : unrootGo x vm.roots with
+  | none =>
+    have hn := (unrootGo_none x vm.roots).mp hu
+    refine ⟨⟨fun h => by simp at h, fun ⟨v, hv, he⟩ => by rw [hn v hv] at he; cases he⟩, fun h => by simp at h, fun _ => rfl⟩
+  | some rs =>
+    have hp := unrootGo_some x vm.roots rs hu
+    have hex : ∃ v ∈ vm.roots, idEq x v = true := by
+      by_cases c : ∀ v ∈ vm.roots, idEq x v = false
+      · rw [(unrootGo_none x vm.roots).mpr c] at hu; cases hu
+      · simp only [Classical.not_forall] at c
+        obtain ⟨v, hv, hne⟩ := c
+        exact ⟨v, hv, by simpa using hne⟩
+    refine ⟨⟨fun _ => hex, fun _ => rfl⟩, fun _ => ⟨hp, length_unrootGo x _ _ hu, ?_⟩, fun h => absurd rfl h⟩
+    intro y
+    have hm := hp.map RVal.norm
+    rw [map_norm_eraseP] at hm
+    simp only
+    rw [hm.count_eq, List.count_erase]
+    by_cases c : y.norm = x.norm
+    · simp [c]
+    · have : (x.norm == y.norm) = false := by simpa using fun e => c e.symm
+      simp [c, this]
+
+/-- **`janet_gcunrootall` with the re-examining loop removes every occurrence** and nothing else; returns 1 iff there was one. -/
+theorem gcunrootall_removes_all (vm : VM) (x : RVal) :
+    (gcunrootallWith true vm x).1.roots.Perm (vm.roots.filter (fun v => !idEq x v)) ∧
+    (∀ v ∈ (gcunrootallWith true vm x).1.roots, idEq x v = false) ∧
+    ((gcunrootallWith true vm x).2 = 1 ↔ ∃ v ∈ vm.roots, idEq x v = true) := by
+  refine ⟨unrootAllGo_rescan_perm x _ _ (by omega), unrootAllGo_rescan_clean x _ _ (by omega), ?_⟩
+  simp only [gcunrootallWith, unrootAllGo_ret true x _ _ (Nat.le_succ _)]
+  cases h : vm.roots.any (fun v => idEq x v) <;> simp_all
+
+/-- What holds for `janet_gcunrootall` **whatever its loop shape** (in particular for the pinned one, whose `v++` steps
+over the slot it has just refilled with the last root): roots not id-equal to `x` are all kept, none is added, the return
+value is right.  NOT proved for the pinned shape — and false, see the witness below — "no root id-equal to `x` is left";
+that part is `gcunrootall_removes_all`, which needs `Gen.GC.unrootallRescans = true`. -/
+theorem gcunrootall_partial (rescan : Bool) (vm : VM) (x : RVal) :
+    ((gcunrootallWith rescan vm x).1.roots.filter (fun v => !idEq x v)).Perm (vm.roots.filter (fun v => !idEq x v)) ∧
+    (gcunrootallWith rescan vm x).1.roots.length ≤ vm.roots.length ∧
+    ((gcunrootallWith rescan vm x).2 = 1 ↔ ∃ v ∈ vm.roots, idEq x v = true) := by
+  refine ⟨unrootAllGo_keeps rescan x _ _ (by omega), unrootAllGo_length_le rescan x _ _, ?_⟩
+  simp only [gcunrootallWith, unrootAllGo_ret rescan x _ _ (Nat.le_succ _)]
+  cases h : vm.roots.any (fun v => idEq x v) <;> simp_all
+
+/-- witness for the pinned loop shape: a value rooted twice in adjacent top slots is still rooted after
+`janet_gcunrootall` (replayed on the implementation by corpus/C01/roots/unrootall_dup.ops) -/
+theorem gcunrootall_pinned_leaves_occurrence :
+    (gcunrootallWith false { roots := [⟨Gen.GC.tyTable, 7⟩, ⟨Gen.GC.tyArray, 1⟩, ⟨Gen.GC.tyArray, 1⟩] } ⟨Gen.GC.tyArray, 1⟩).1.roots
+      = [⟨Gen.GC.tyTable, 7⟩, ⟨Gen.GC.tyArray, 1⟩] := by decide
+
+/-- **`root_count ≤ root_capacity` under every op history** — the store `roots[root_count] = root` of janet_gcroot is in
+bounds; rests on `1 ≤ rootGrowMul` of the regenerated constants. -/
+theorem root_capacity_invariant (D : Nat) (s : Heap × VM) (ops : List ROp) (h : s.2.roots.length ≤ s.2.rootCap) :
+    (runOps D s ops).2.roots.length ≤ (runOps D s ops).2.rootCap := runOps_cap D ops s h
+
+/-- **What a collection keeps depends only on the multiset of roots**, not on the order `janet_gcunroot`'s swap-with-last
+leaves them in: permuted root arrays give the same reachable set, hence (by `mark_eq_reachable`) the same marked set. -/
+theorem reachable_roots_perm (h : Heap) (vm vm' : VM) (p : (vm.roots.map RVal.norm).Perm (vm'.roots.map RVal.norm)) (i : Id) :
+    Reachable (heapWithRoots h vm) i ↔ Reachable (heapWithRoots h vm') i := by
+  have key : ∀ (a b : VM), (a.roots.map RVal.norm).Perm (b.roots.map RVal.norm) →
+      Reachable (heapWithRoots h a) i → Reachable (heapWithRoots h b) i := by
+    intro a b pab r
+    refine Reachable.congr_roots (h := heapWithRoots h a) (h' := heapWithRoots h b) (fun _ => rfl) ?_ r
+    intro e he
+    simp only [heapWithRoots, List.mem_append] at he ⊢
+    exact he.imp id (mem_flatMap_edge_of_perm pab)
+  exact ⟨key vm vm' p, key vm' vm p.symm⟩
+
+theorem marked_roots_perm (D : Nat) (hD : 1 ≤ D) (h : Heap) (vm vm' : VM)
+    (p : (vm.roots.map RVal.norm).Perm (vm'.roots.map RVal.norm)) (i : Id) :
+    (mark D (heapWithRoots h vm)).marked.contains i = (mark D (heapWithRoots h vm')).marked.contains i := by
+  have a := mark_eq_reachable (heapWithRoots h vm) D hD i
+  have b := mark_eq_reachable (heapWithRoots h vm') D hD i
+  have c := reachable_roots_perm h vm vm' p i
+  cases h1 : (mark D (heapWithRoots h vm)).marked.contains i <;>
+    cases h2 : (mark D (heapWithRoots h vm')).marked.contains i <;> simp_all
+
+/-- **`janet_collect` while `gc_suspend ≠ 0` does nothing**, and a collection that does run leaves the roots array, the
+suspension counter and the capacity as they were, clears `gc_mark_phase`, resets `next_collection` and releases all
+scratch memory. -/
+theorem collect_suspended_noop (D : Nat) (h : Heap) (vm : VM) (hs : vm.gcSuspend ≠ 0) : collectVM D h vm = (h, vm) :=
+  collectVM_locked D h vm hs
+
+theorem collect_epilogue (D : Nat) (h : Heap) (vm : VM) (hs : vm.gcSuspend = 0) :
+    (collectVM D h vm).2.roots = vm.roots ∧ (collectVM D h vm).2.gcSuspend = 0 ∧ (collectVM D h vm).2.markPhase = false ∧
+    (collectVM D h vm).2.nextCollection = 0 ∧ (collectVM D h vm).2.scratch = [] ∧
+    (collectVM D h vm).2.collections = vm.collections + 1 ∧
+    (collectVM D h vm).1 = { collect D (heapWithRoots h vm) with roots := h.roots } := by
+  rw [collectVM_eq, if_pos hs]; exact ⟨rfl, hs, rfl, rfl, rfl, rfl, rfl⟩
+
+/-- `janet_gcunlock(janet_gclock())` restores the counter whatever happened in between — including an unbalanced inner
+lock left behind by a longjmp (janet_restore does the same with the saved handle) -/
+theorem lock_unlock_restores (D : Nat) (h : Heap) (vm : VM) (body : List ROp) :
+    (runOps D (h, vm) (.lock :: body ++ [.unlock vm.gcSuspend])).2.gcSuspend = vm.gcSuspend := by
+  simp only [runOps, List.foldl_cons, List.foldl_append, List.foldl_nil]
+  rfl
+
+/-- **Inside a suspended region** (counter positive at entry, no unlock down to a handle ≤ 0 — which is what nested
+lock/unlock pairs give) **no collection runs and every block keeps its contents**, whatever the pressure and however
+many safepoints or explicit `janet_collect` calls the region contains. -/
+theorem suspended_region_keeps_heap (D : Nat) (s : Heap × VM) (ops : List ROp) (hs : 0 < s.2.gcSuspend)
+    (hk : keepsSuspended ops = true) :
+    0 < (runOps D s ops).2.gcSuspend ∧ (runOps D s ops).2.collections = s.2.collections ∧
+    (∀ i x, s.1.get i = some x → (runOps D s ops).1.get i = some x) := runOps_suspended D ops s hs hk
+
+/-- **Transparency with C locals.**  For every program of the extended mutator that obeys the rooting discipline
+`disc` (objects held only in C locals exist only between `janet_gclock` and the matching `janet_gcunlock`), every forced
+schedule, every allocation pressure (so every outcome of `maybe_collect`'s `next_collection >= gc_interval` test) and
+every initial heap and GC state with `gc_suspend = 0`: the observations — including the handles `janet_gclock` returns —
+equal those of the program's meaning without a collector.  The collector here is the modelled `maybe_collect` →
+`janet_collect` (suspend early-out) of GC/Roots.lean and sees only the visible roots. -/
+theorem gc_transparent_locked (D : Nat) (hD : 1 ≤ D) (prog : List CStep) (sched : Nat → Bool) (h : Heap) (vm : VM)
+    (hs : vm.gcSuspend = 0) (hdisc : disc 0 0 prog = true) :
+    runC D prog sched 0 ⟨h, 0, vm, []⟩ = runC0 prog ⟨h, 0, vm, []⟩ :=
+  runC_sim D hD sched prog 0 0 0 _ _ ⟨Agree.refl h, rfl, rfl, rfl⟩ rfl rfl rfl (by simp [hs]) (fun _ => rfl) hdisc
+
+/-! ### non-vacuity -/
+
+/-- an op history on three values: root a, root n1, root a, unroot n2 (id-equal to n1: numbers), unroot a -/
+example : (runOps 1 (Heap.ofList [] [], {}) [.root ⟨Gen.GC.tyArray, 0⟩, .root ⟨Gen.GC.tyNumber, 1⟩, .root ⟨Gen.GC.tyArray, 0⟩,
+    .unroot ⟨Gen.GC.tyNumber, 2⟩, .unroot ⟨Gen.GC.tyArray, 0⟩]).2.roots = [⟨Gen.GC.tyArray, 0⟩] := by decide
+
+/-- a disciplined program: lock, allocate two C locals, link them, keep one, drop the other, unlock, observe -/
+def lockedProg : List CStep :=
+  [.step (.alloc 3 []), .lock, .newLocal 3 [.root 0], .newLocal 3 [], .step (.emit (.root 1)), .keep, .drop, .unlock,
+   .step (.emit (.root 1)), .pressure 5000000, .step (.emit (.field (.root 1) 0))]
+
+example : disc 0 0 lockedProg = true := by decide
+example : runC0 lockedProg ⟨Heap.ofList [] [], 0, {}, []⟩ =
+    [.handle 0, .obs (.obj 3 1), .obs (.obj 3 1), .obs (.obj 3 0)] := by decide
+/-- the discipline is needed: the same allocations without the lock are rejected -/
+example : disc 0 0 [.newLocal 3 [], .step (.emit (.root 0))] = false := by decide
 
 end JanetModel.Props.C01
